@@ -87,6 +87,12 @@ def handle (j : Json) : Except String Json := do
     return Json.mkObj [("inBounds", toJson (fs.map (inBounds leI zero one L)).toArray),
       ("rawOk", toJson (fs.map (rawOk leI zero one L)).toArray),
       ("maskFixed", toJson (fs.map fun f => decide (maskFeat zero L f = f)).toArray)]
+  | "istopk" =>
+    -- the specification `IsTopK` (c19_topk) on an observed result
+    let k ← getNat j "count"
+    let all ← (← getArr j "all").toList.mapM entryOfJson
+    let res ← (← getArr j "res").toList.mapM entryOfJson
+    return Json.mkObj [("isTopK", toJson (isTopKB leI k all res))]
   | "witness" =>
     -- the data of `c19_not_worse_than_prior_counterexample`, both variants
     let S : Strategy Unit Unit Nat Nat :=
